@@ -32,7 +32,7 @@ impl Pipe {
 
         difference!(
             cylinder!(h=length, d1=od, d2=od, center=center, fn=fn_);
-            translate!([0.0, 0.0, -1.0],
+            translate!([0.0, 0.0, if center { 0.0 } else { -1.0 }],
                 cylinder!(h=length + 2.0, d1=od - wall_thickness * 2.0,
                     d2=od - wall_thickness * 2.0, center=center, fn=fn_);
             );
@@ -120,7 +120,7 @@ impl Pipe {
 
         difference!(
             cylinder!(h=length, d1=od1, d2=od2, center=center, fn=fn_);
-            translate!([0.0, 0.0, -0.001],
+            translate!([0.0, 0.0, if center { 0.0 } else { -0.001 }],
                 cylinder!(h=length + 0.002, d1=od1 - wall_thickness * 2.0,
                     d2=od2 - wall_thickness * 2.0, center=center, fn=fn_);
             );
